@@ -101,6 +101,8 @@ class Verifier(Engine):
                 st.assume(self.ev_spec(expr, st))
         for label, expr in c.requires:
             st.assume(self.ev_spec(expr, st))
+        for label, expr in c.definitions:
+            st.assume(self.ev_spec(expr, st))
         for label, expr in self.reg.axioms:
             st.assume(self.ev_spec(expr, st))
         self.normalize_opts(st)
